@@ -45,6 +45,9 @@ PURE_NAMES = {
     "unwrap_or", "count", "next", "all", "any", "rev", "enumerate", "zip", "map", "to_le_bytes", "to_be_bytes", "from_le_bytes",
     "from_be_bytes", "leading_zeros", "trailing_zeros", "to_bits", "from_bits", "as_array", "to_vec", "to_string", "into_iter",
     "unwrap_unchecked", "is_char_boundary", "digest", "digest_with_initial",
+    "to_ne_bytes", "from_ne_bytes", "to_le", "to_be", "from_le", "from_be", "swap_bytes", "reverse_bits", "rotate_left", "rotate_right",
+    "wrapping_neg", "wrapping_shl", "wrapping_shr", "count_ones", "count_zeros", "is_power_of_two", "abs_diff", "div_ceil",
+    "saturating_sub", "saturating_add", "checked_sub", "checked_add", "checked_mul", "then_some", "as_ptr_range", "as_mut_ptr_range",
 }
 PURE_PREFIX = ("core::", "std::", "alloc::")
 # never pure whatever the name: they write through their first argument
@@ -142,6 +145,24 @@ def _memcpy_text(ct, e):
     if fr is None or fr[1] != ("len", s_[1][1]):
         return None
     return "std::ptr::copy_nonoverlapping(as_ptr(%s), %s, %s)" % (ct.t(norm(s_[1][1])), ct.t(norm(fr[0])), ct.t(norm(fr[1])))
+
+
+def _arrconv(e):
+    """(element type, N, converts to a reference?) when the call is a slice -> array conversion of core (TryFrom/TryInto)"""
+    c = (e or {}).get("callee") or {}
+    nm, tr = c.get("name"), c.get("trait") or ""
+    a = list(c.get("args") or [])
+    if nm == "try_into" and tr.endswith("TryInto") and len(a) >= 2:
+        src, dst = c.get("self_ty") or a[0], a[1]
+    elif nm == "try_from" and tr.endswith("TryFrom") and len(a) >= 2:
+        dst, src = c.get("self_ty") or a[0], a[1]
+    else:
+        return None
+    ms = re.match(r"^&(?:'\w+ )?(?:mut )?\[(\w+)\]$", src or "")
+    md = re.match(r"^(&(?:'\w+ )?)?\[(\w+); (\w+)\]$", dst or "")
+    if not ms or not md or ms.group(1) != md.group(2):
+        return None
+    return ms.group(1), md.group(3), bool(md.group(1))
 
 
 def _alias(nm):
@@ -416,6 +437,10 @@ class CT:
             l = x[1]
             if l[0] == "P":
                 s = r(l[1])
+                if l[1][0] == "okval" and l[1][1][0] == "call":
+                    ac = _arrconv(self.pure.get(l[1][1][1]))
+                    if ac is not None and ac[2]:
+                        return s          # the array behind the `&[T; N]` a slice converts to: printed like the by-value conversion
                 return "*" + s
             return self.loc(l)
         if k == "getf":
@@ -527,6 +552,11 @@ class CT:
             segs = re.sub(r"<[^<>]*>", "", re.sub(r"<[^<>]*>", "", c.get("def") or nm)).split("::")
             segs = [x for x in segs if x]
             return "%s(%s)" % ("::".join(segs[-2:]), ", ".join(args))
+        ac = _arrconv(e)
+        if ac is not None and len(args) == 1:
+            # `<[T; N]>::try_from(&[T])`, `<&[T; N]>::try_from(&[T])` and the `try_into` spellings: Ok iff the length is N, the array is the
+            # slice's N elements (by value or in place); one canonical spelling, the value form's
+            return "try_into::<&[%s],&[%s],[%s; %s]>(%s)" % (ac[0], ac[0], ac[0], ac[1], args[0])
         ty = ""
         if nm in ("from", "into", "try_from", "try_into", "size_of", "default", "new", "cast"):
             ty = "::<%s>" % ",".join([c.get("self_ty") or ""] + list(c.get("args") or []))[:80]
